@@ -1058,7 +1058,22 @@ fn simulate_run(seed: u64, run: u64, fault_free: bool, stats: &mut Stats) -> (Sc
                     let _ = codec::encode(ty, raw, Codec::Json, &mut b);
                     let own = String::from_utf8_lossy(&b).trim_matches('"').to_string();
                     let zone = *rng.pick(&["Z", "+00:00", "+01:00", "-05:00", "+14:00", "-12:00", "+05:45", "+0100", " UTC", "z", "-00:01", "+23:59"]);
-                    let text = match rng.below(8) {
+                    const TAILS: [&str; 10] = [
+                        "（木曜日）です", " 日本標準時（JST）", " Ora legale dell’Europa centrale", " московское время", " — übermorgen früh",
+                        "  heure d’été d’Europe centrale", " ⏰⏰⏰⏰⏰⏰⏰", "　　　　　　　", " ÄÖÜäöüßÄÖÜäöüß", " الوقت العربي الرسمي",
+                    ];
+                    let text = match rng.below(11) {
+                        8 | 9 | 10 => {
+                            // a complete valid value followed by trailing text of another script,
+                            // shifted by 0..3 ASCII bytes so that character boundaries fall everywhere
+                            let pad = &"   "[..rng.usize_below(4)];
+                            let tail = *rng.pick(&TAILS);
+                            if rng.bool() {
+                                format!("{}{}{}", own, pad, tail)
+                            } else {
+                                format!("{}{}{}{}", own, pad, tail, tail)
+                            }
+                        }
                         0 => format!("{}{}", own.replacen(' ', "T", 1), zone),
                         1 => own.replacen(' ', "T", 1),
                         2 => format!("{}{}", own, zone),
